@@ -243,13 +243,26 @@ func (c *c13Ctx) doOp(kv kvAPI, m *KV, inTx bool, readOnly bool) bool {
 }
 
 func runC13(rc *RunCtx) {
-	s, tp := rc.S, rc.S.Tape
+	tp := rc.S.Tape
 	if tp.Pick(5) == 4 {
 		inBubble(rc, func() { runC13Concurrent(rc) })
 		return
 	}
+	if tp.Pick(16) == 15 {
+		// the real RaftBackend under the same layers (its goroutines and timers need the bubble)
+		inBubble(rc, func() { runC13Seq(rc, "raft") })
+		return
+	}
+	runC13Seq(rc, "")
+}
+
+func runC13Seq(rc *RunCtx, bottom string) {
+	s, tp := rc.S, rc.S.Tape
 	bottoms := []string{"simdisk", "simdisk-plain", "inmem", "inmem-plain", "simdisk", "inmem", "file", "fsm"}
 	o := StackOpts{Bottom: bottoms[tp.Pick(len(bottoms))]}
+	if bottom != "" {
+		o.Bottom = bottom
+	}
 	o.Encoding = tp.Pick(2) == 1
 	if tp.Pick(2) == 1 {
 		o.CacheSize = []int{1, 2, 4, 8, 64, 200}[tp.Pick(6)]
@@ -308,7 +321,7 @@ func runC13(rc *RunCtx) {
 		nOps = 200
 	}
 	nOps = 10 + tp.Pick(nOps)
-	if o.Bottom == "fsm" || o.Bottom == "file" {
+	if o.Bottom == "fsm" || o.Bottom == "file" || o.Bottom == "raft" {
 		nOps = 5 + nOps/3 // every write is an fsync
 	}
 	for i := 0; i < nOps && s.Viol == nil; i++ {
